@@ -65,3 +65,46 @@ Example C02_pipeline_on_example :
     (exists g, assoc n_c gs' = Some g /\ map fst (gcomps g) = [n_a; n_a]).
 Proof. exact ex_tt. Qed.
 Print Assumptions C02_pipeline_on_example.
+
+(* ---- the TrueType pre-processing pipeline, translated from /repo's current initDefaultFilters on every run ---- *)
+From U2F Require Import Filters.Pipeline Generated.Pipelines Filters.PipelineProofs.
+Theorem C02_pipeline_shape : forall o,
+  kinds (ttf_default_filters o) =
+  (if color_font o then [ExplodeColorLayerGlyphs] else []) ++ [DecomposeComponents] ++
+  (if flattenComponents o then [FlattenComponents] else []) ++
+  (if removeOverlaps o then [RemoveOverlaps] else []) ++
+  (if convertCubics o then [CubicToQuadratic] else if reverseDirection o then [ReverseContourDirection] else []).
+Proof. exact ttf_pipeline_shape. Qed.
+Print Assumptions C02_pipeline_shape.
+
+Theorem C02_direction_reversed_iff_requested : forall o, reverses (ttf_default_filters o) = reverseDirection o.
+Proof. exact ttf_reverses_iff_requested. Qed.
+Print Assumptions C02_direction_reversed_iff_requested.
+
+Theorem C02_direction_reversed_at_most_once : forall o,
+  (count CubicToQuadratic (ttf_default_filters o) + count ReverseContourDirection (ttf_default_filters o) <= 1)%nat.
+Proof. exact ttf_reverses_once. Qed.
+Print Assumptions C02_direction_reversed_at_most_once.
+
+Theorem C02_converter_gets_the_callers_options : forall o args,
+  In (CubicToQuadratic, args) (ttf_default_filters o) ->
+  arg K_allQuadratic args = Some (AB (allQuadratic o)) /\
+  arg K_rememberCurveType args = Some (AB (rememberCurveType o && inplace o)) /\
+  arg K_reverseDirection args = Some (AB (reverseDirection o)).
+Proof. exact ttf_converter_arguments. Qed.
+Print Assumptions C02_converter_gets_the_callers_options.
+
+Theorem C02_only_mixed_glyphs_are_decomposed : forall o args,
+  In (DecomposeComponents, args) (ttf_default_filters o) -> arg K_include args = Some AOpaque.
+Proof. exact ttf_decompose_is_restricted. Qed.
+Print Assumptions C02_only_mixed_glyphs_are_decomposed.
+
+Theorem C02_naming_a_backend_changes_nothing : forall o b,
+  removeOverlaps o = false -> ttf_default_filters (with_backend b o) = ttf_default_filters o.
+Proof. exact ttf_backend_alone_changes_nothing. Qed.
+Print Assumptions C02_naming_a_backend_changes_nothing.
+
+Example C02_default_pipeline : kinds (ttf_default_filters ttf_defaults) = [DecomposeComponents; CubicToQuadratic]
+                               /\ reverses (ttf_default_filters ttf_defaults) = true.
+Proof. exact ttf_default_pipeline. Qed.
+Print Assumptions C02_default_pipeline.
